@@ -91,7 +91,7 @@ func newEventFromUntrustedJSONV3(eventJSON []byte, roomVersion IRoomVersion) (PD
 
 	// v3 events have room IDs as the create event ID.
 	// TODO: allow validation to be enhanced/relaxed to help users like Complement.
-	if err := checkRoomID(res); err != nil {
+	if err := notOnlyTooManyBytes(checkRoomID(res)); err != nil {
 		return nil, err
 	}
 
@@ -149,7 +149,7 @@ func newEventFromTrustedJSONV3(eventJSON []byte, redacted bool, roomVersion IRoo
 	// v3 events have room IDs as the create event ID.
 	// TODO: allow validation to be enhanced/relaxed to help users like Complement.
 	// TODO: feels weird to only have this validation here and not length checks etc :S
-	if err := checkRoomID(&res); err != nil {
+	if err := notOnlyTooManyBytes(checkRoomID(&res)); err != nil {
 		return nil, err
 	}
 
@@ -167,7 +167,7 @@ func newEventFromTrustedJSONWithEventIDV3(eventID string, eventJSON []byte, reda
 
 	// v3 events have room IDs as the create event ID.
 	// TODO: allow validation to be enhanced/relaxed to help users like Complement.
-	if err := checkRoomID(res); err != nil {
+	if err := notOnlyTooManyBytes(checkRoomID(res)); err != nil {
 		return nil, err
 	}
 
